@@ -33,7 +33,17 @@ type c12Input struct {
 	Lines bool `json:"line_comments"`
 	// Reuse: all files of the group go through one Restorer and one FileRestorer
 	Reuse bool `json:"reuse_file_restorer"`
+	// NonASCII: the random decorations are comments with multi-byte UTF-8 text (positions are byte
+	// offsets: a comment of n runes and m > n bytes occupies m positions)
+	NonASCII bool `json:"non_ascii_decorations,omitempty"`
 }
+
+// the decoration pools of c12Check
+var (
+	c12PoolBlocks         = []string{"/* b */", "\n", "/*x*/", "\n", "/**/", "/* c */"}
+	c12PoolBlocksNonASCII = []string{"/* б */", "\n", "/*é*/", "\n", "/**/", "/* 注释 */", "/* ééé */"}
+	c12PoolLinesNonASCII  = []string{"// ç", "/* б */", "\n", "/* много\nстрочный */", "// дольше комментарий", "/*é*/", "\n", "//", "/* 多行\n注释\n*/", "// 日本語のコメント"}
+)
 
 func orderedItems(f *ast.File) []string {
 	type it struct {
@@ -103,6 +113,7 @@ func posItems(f *ast.File) []posItem {
 func withComments(items []posItem, f *ast.File) []posItem {
 	cnt := map[string]int{}
 	pos := map[string]token.Pos{}
+	end := map[string]token.Pos{}
 	for _, cg := range f.Comments {
 		for _, c := range cg.List {
 			if strings.Contains(c.Text, "\n") {
@@ -111,6 +122,7 @@ func withComments(items []posItem, f *ast.File) []posItem {
 			t := strings.Join(strings.Fields(c.Text), "")
 			cnt[t]++
 			pos[t] = c.Slash
+			end[t] = c.End()
 		}
 	}
 	var ts []string
@@ -123,7 +135,55 @@ func withComments(items []posItem, f *ast.File) []posItem {
 	for _, t := range ts {
 		items = append(items, posItem{"comment:" + t, pos[t]})
 	}
+	// ... and so do the ends of these comments: what follows a comment in the printed text starts
+	// at or after the comment's End() (Slash + len(Text), in bytes)
+	for _, t := range ts {
+		items = append(items, posItem{"comment-end:" + t, end[t]})
+	}
 	return items
+}
+
+// commentCoherence: two facts of every parsed file, demanded of a restored one. (1) No position
+// field of a node lies strictly inside a comment (Slash < p < End()): tokens and comments do not
+// overlap. (2) The line table has exactly one entry strictly inside a comment for every line break
+// in its text (none inside a one-line comment: a line does not start in the middle of it).
+func commentCoherence(f *ast.File, tf *token.File) string {
+	var cs []*ast.Comment
+	for _, cg := range f.Comments {
+		cs = append(cs, cg.List...)
+	}
+	if len(cs) == 0 {
+		return ""
+	}
+	sort.SliceStable(cs, func(a, b int) bool { return cs[a].Slash < cs[b].Slash })
+	// the comment with the largest Slash < p
+	inside := func(p token.Pos) *ast.Comment {
+		i := sort.Search(len(cs), func(i int) bool { return cs[i].Slash >= p })
+		if i > 0 && p < cs[i-1].End() {
+			return cs[i-1]
+		}
+		return nil
+	}
+	for _, it := range posItems(f) {
+		if !it.p.IsValid() {
+			continue
+		}
+		if cm := inside(it.p); cm != nil {
+			return fmt.Sprintf("%s = %d lies inside the comment %q at %d..%d", it.key, it.p, clip(cm.Text, 40), cm.Slash, cm.End())
+		}
+	}
+	within := map[*ast.Comment]int{}
+	for _, off := range tf.Lines() {
+		if cm := inside(token.Pos(tf.Base() + off)); cm != nil {
+			within[cm]++
+		}
+	}
+	for _, cm := range cs {
+		if want := strings.Count(cm.Text, "\n"); within[cm] != want {
+			return fmt.Sprintf("the line table has %d entries inside the comment %q at %d..%d, whose text has %d line breaks", within[cm], clip(cm.Text, 40), cm.Slash, cm.End(), want)
+		}
+	}
+	return ""
 }
 
 // the positions the restorer assigned are in the same relative order as the positions of the same
@@ -175,13 +235,17 @@ func c12Check(in c12Input) (key, what string) {
 			continue
 		}
 		if in.Dens > 0 {
-			if in.Lines {
+			if in.Lines && in.NonASCII {
+				randomDecorateWith(rnd, f, in.Dens, c12PoolLinesNonASCII)
+			} else if in.Lines {
 				randomDecorate(rnd, f, in.Dens)
+			} else if in.NonASCII {
+				randomDecorateWith(rnd, f, in.Dens, c12PoolBlocksNonASCII)
 			} else {
 				// (multi-line block comments are in the other mode: go/printer defers a comment that
 				// contains a line break -- and every comment after it in the same group -- past the
 				// next token when printing it first would introduce an implicit semicolon)
-				randomDecorateWith(rnd, f, in.Dens, []string{"/* b */", "\n", "/*x*/", "\n", "/**/", "/* c */"})
+				randomDecorateWith(rnd, f, in.Dens, c12PoolBlocks)
 			}
 		}
 		// light edit: reverse the declarations after the imports
@@ -267,6 +331,9 @@ func c12Check(in c12Input) (key, what string) {
 		if len(ls) > 0 && ls[len(ls)-1] >= tf.Size() && tf.Size() > 0 {
 			return "c12-lines", fmt.Sprintf("file %d: last line offset %d >= size %d", fi, ls[len(ls)-1], tf.Size())
 		}
+		if m := commentCoherence(af, tf); m != "" {
+			return "c12-comment-overlap", fmt.Sprintf("file %d: %s", fi, m)
+		}
 		// print twice (repeatable) and compare order with a fresh parse
 		var b1, b2 bytes.Buffer
 		pc := printer.Config{Mode: printer.UseSpaces | printer.TabIndent, Tabwidth: 8} // go/format's configuration, without its import sorting
@@ -324,7 +391,7 @@ func c12Check(in c12Input) (key, what string) {
 }
 
 func c12Prop(c *Ctx) {
-	c.Res.Rule = "groups of 1-4 sources (hand corpus + $GOROOT/src sample) randomly decorated (density 1/3, 1/8 or none) and restored into one shared FileSet; non-trivial = distinct (sources, seed, density)"
+	c.Res.Rule = "groups of 1-4 sources (hand corpus + $GOROOT/src sample) randomly decorated (density 1/3, 1/8 or none) and restored into one shared FileSet, + sources whose comments / strings / identifiers contain multi-byte UTF-8 text, alone and in groups, with multi-byte comment decorations; non-trivial = distinct (sources, seed, density)"
 	srcs := oracleSources(c, c.N(24), 8000)
 	for i := 0; i < c.N(120); i++ {
 		n := 1 + c.Rng.Intn(4)
@@ -347,6 +414,7 @@ func c12Prop(c *Ctx) {
 			c.Res.Samples = append(c.Res.Samples, map[string]interface{}{"srcs": cl, "seed": in.Seed, "density": in.Dens})
 		}
 	}
+	c12NonASCII(c, srcs)
 	c04KnownStartNewline(c)
 	c12ExtrasKnown(c)
 	// the recorded finding: a generic type alias (the generated TypeSpec case assigns the position
@@ -404,6 +472,48 @@ func c12ExtrasKnown(c *Ctx) {
 		}
 		return true
 	})
+}
+
+// c12NonASCIISources: positions are byte offsets, and a comment's End() is Slash + len(Text) in
+// bytes.  Sources whose comments (and strings, identifiers) contain multi-byte UTF-8 text: multi-line
+// general comments in CJK / Cyrillic followed by a declaration, line comments and one-line general
+// comments with multi-byte runes directly followed by code.
+var c12NonASCIISources = []string{
+	"package a\n\n/*\n   这个函数计算两个整数的和,\n   并返回结果。\n*/\nfunc Add(a, b int) int { return a + b }\n\n/* Функция возвращает\n   разность двух чисел */\nvar Sub = func(a, b int) int { return a - b }\n",
+	"package a\n\nfunc f() {\n\tx := 1 // héllo wörld\n\ty := 2 /* ééé */ + x\n\t{ /* ééé */ g() }\n\t_ = y // 日本語のコメント\n\tg( /* α */ x /* β */, y) // γγγγγγ\n}\n",
+	"// Пакет a: документация пакета.\npackage a // пакет\n\nimport (\n\t\"fmt\" // форматирование\n\t/* ввод-вывод */ \"io\"\n)\n\n// T — структура с полями.\ntype T struct {\n\tA int    // поле «А»\n\tB string /* поле Б */ `json:\"б\"`\n\t/* многострочный\n\t   комментарий к полю */\n\tC io.Reader\n}\n\nconst (\n\tπ = 3.14159 // число π\n\tε = 1e-9    /* точность */\n)\n\nvar приветствие = \"привет, мир\" // строка\n\nfunc (t *T) Строка() string {\n\t// комментарий перед оператором\n\tif t == nil { /* пусто */\n\t\treturn \"〈nil〉\"\n\t}\n\tswitch t.A {\n\tcase 1: // один\n\t\treturn \"一\"\n\t/* два\n\t   или три */\n\tcase 2, 3:\n\t\treturn \"二三\"\n\t}\n\treturn fmt.Sprint(t.A, /* затем */ t.B) // конец\n}\n",
+	"package a\n\nvar s = []string{\n\t\"ä\", // a-umlaut\n\t/* ö */ \"ö\",\n\t`мульти\nстрока`, /* после\n\tстроки */\n\t\"ü\", /* ü */\n}\n\nfunc g(a /* первый */, b int /* второй */) (r int /* результат */) {\n\tfor i := 0; /* условие */ i < a; i++ /* шаг */ {\n\t\tr += b /* прибавить\n\t\tещё */\n\t}\n\treturn /* 返回 */ r\n}\n\n/* 文件末尾的\n   多行注释 */\n",
+}
+
+// c12NonASCII: every non-ASCII source alone (as parsed), with non-ASCII comment decorations added, and
+// in groups with other sources in one FileSet
+func c12NonASCII(c *Ctx, srcs []string) {
+	run := func(in c12Input) {
+		c.Res.Evaluations++
+		c.Res.seen(fmt.Sprint("non-ascii ", in.Seed, in.Dens, in.Lines, in.Reuse, len(in.Srcs)))
+		c.Res.hist("c12-non-ascii", fmt.Sprintf("files=%d density=%d lines=%v", len(in.Srcs), in.Dens, in.Lines))
+		if key, what := c12Check(in); key != "" {
+			c.Res.fail(key, what, in)
+		}
+	}
+	for _, src := range c12NonASCIISources {
+		// (seed 1 and 2 of the input: without / possibly with the reversal of the declarations; the
+		// comparison with a fresh parse is made when Lines is false)
+		run(c12Input{Srcs: []string{src}, Seed: 1 + c.Rng.Int63n(1<<40)*3, Dens: 0})
+		run(c12Input{Srcs: []string{src}, Seed: c.Rng.Int63(), Dens: 0, Lines: true, Reuse: true})
+	}
+	for i := 0; i < c.N(24); i++ {
+		in := c12Input{Seed: c.Rng.Int63(), Dens: []int{3, 8}[c.Rng.Intn(2)], Lines: c.Rng.Intn(2) == 0, Reuse: c.Rng.Intn(2) == 0, NonASCII: true}
+		n := 1 + c.Rng.Intn(3)
+		for j := 0; j < n; j++ {
+			if c.Rng.Intn(2) == 0 {
+				in.Srcs = append(in.Srcs, c12NonASCIISources[c.Rng.Intn(len(c12NonASCIISources))])
+			} else {
+				in.Srcs = append(in.Srcs, srcs[c.Rng.Intn(len(srcs))])
+			}
+		}
+		run(in)
+	}
 }
 
 const c12GenericAlias = "package a\n\ntype A[P any] = B[P]\n\ntype B[P any] struct{ x P }\n"
